@@ -32,7 +32,7 @@ static std::string judge_node(const TNode& n, const TNode* parent, unsigned leve
     for (size_t j = 0; j < n.kids.size(); ++j) {
       if (i == j) continue;
       int ins = path_inside(n.kids[i].poly, n.kids[j].poly);
-      if (ins == 1) return "tree_child_inside_sibling: " + str(n.kids[i].poly) + " inside sibling " + str(n.kids[j].poly);
+      if (ins == 1) return "tree_child_inside_sibling: " + std::string(area2(n.kids[i].poly) < 0 ? "negatively" : "positively") + " oriented " + str(n.kids[i].poly) + " at level " + std::to_string(level + 1) + " inside sibling " + str(n.kids[j].poly);
     }
   for (auto& k : n.kids) { std::string s = judge_node(k, &n, level + 1); if (!s.empty()) return s; }
   return "";
@@ -48,13 +48,15 @@ static void copy_treeD(const Clipper2Lib::PolyPathD& pp, TNode& n, double scale)
   for (size_t i = 0; i < pp.Count(); ++i) copy_treeD(*pp.Child(i), n.kids[i], scale);
 }
 
-struct Ctx { Reporter& rep; bool treeD; };
+struct Ctx { Reporter& rep; bool treeD; std::string key_prefix; };   // key_prefix: compact description of a generated input (replaces S=/C= in case keys)
 
 static void check_input(Ctx& cx, const Paths& S, const Paths& C, const Paths& O, bool verbose = false, int only_ct = 0, int only_fr = -1, const std::string& only_api = "") {
   Reporter& rep = cx.rep;
   int cur_ct = 0, cur_fr = 0; const char* cur_api = "tree64";
-  rep.current_case = [&]() { Case c = Case::parse(ckey(S, C, cur_ct, cur_fr, cur_api)); if (!O.empty()) c.set("O", O); return c.s(); };
-  auto K = [&](int ct, int fr, const char* api) { Case c = Case::parse(ckey(S, C, ct, fr, api)); if (!O.empty()) c.set("O", O); return c.s(); };
+  auto K = [&](int ct, int fr, const char* api) {
+    if (!cx.key_prefix.empty()) { Case c = Case::parse(cx.key_prefix); c.set("ct", ct).set("fr", fr).set("api", api); return c.s(); }
+    Case c = Case::parse(ckey(S, C, ct, fr, api)); if (!O.empty()) c.set("O", O); return c.s(); };
+  rep.current_case = [&]() { return K(cur_ct, cur_fr, cur_api); };
   for (int ct = 1; ct <= 4; ++ct) for (int fr = 0; fr < 4; ++fr) {
     if (only_ct && ct != only_ct) continue;
     if (only_fr >= 0 && fr != only_fr) continue;
@@ -129,6 +131,65 @@ static std::vector<Path> ring_shapes(int n) {
   return v;
 }
 
+// ---------------------------------------------------------------- cells family
+// a closed ring of cells round a w x h grid plus a subset (code) of the interior cells, given as rectangles in one of six
+// decompositions (0 unit cells / 1 maximal row runs / 2 maximal column runs / 3 ring as four bars + interior row runs / 4, 5 overlapping row AND column runs): all
+// contacts are edge or corner contacts, i.e. polygons merged and holes closed through horizontal joins, islands in holes
+static Path cell_rect(int x0, int y0, int x1, int y1) { const i64 st = 4; return Path{{x0 * st, y0 * st}, {x1 * st, y0 * st}, {x1 * st, y1 * st}, {x0 * st, y1 * st}}; }
+static Paths cells_shape(int w, int h, u64 code, int decomp) {
+  int iw = w - 2, nin = iw * (h - 2);
+  std::vector<std::vector<char>> g(h, std::vector<char>(w, 0));
+  for (int y = 0; y < h; ++y) for (int x = 0; x < w; ++x) if (x == 0 || y == 0 || x == w - 1 || y == h - 1) g[y][x] = 1;
+  for (int k = 0; k < nin; ++k) if (code >> k & 1) g[1 + k / iw][1 + k % iw] = 1;
+  Paths S; auto R = cell_rect;
+  if (decomp == 0) { for (int y = 0; y < h; ++y) for (int x = 0; x < w; ++x) if (g[y][x]) S.push_back(R(x, y, x + 1, y + 1)); }
+  else if (decomp == 1) { for (int y = 0; y < h; ++y) for (int x = 0; x < w;) { if (!g[y][x]) { ++x; continue; } int x1 = x; while (x1 < w && g[y][x1]) ++x1; S.push_back(R(x, y, x1, y + 1)); x = x1; } }
+  else if (decomp == 2) { for (int x = 0; x < w; ++x) for (int y = 0; y < h;) { if (!g[y][x]) { ++y; continue; } int y1 = y; while (y1 < h && g[y1][x]) ++y1; S.push_back(R(x, y, x + 1, y1)); y = y1; } }
+  else if (decomp == 3) { S.push_back(R(0, 0, w, 1)); S.push_back(R(0, h - 1, w, h)); S.push_back(R(0, 1, 1, h - 1)); S.push_back(R(w - 1, 1, w, h - 1));
+    for (int y = 1; y < h - 1; ++y) for (int x = 1; x < w - 1;) { if (!g[y][x]) { ++x; continue; } int x1 = x; while (x1 < w - 1 && g[y][x1]) ++x1; S.push_back(R(x, y, x1, y + 1)); x = x1; } }
+  else if (decomp >= 6) {
+    // 6..9: interior unit cells + a frame of four CROSSING bars drawn one cell outside the grid coordinates used above (the ring row/column
+    // itself): "hash" frames (all bars protrude one cell at both ends: 6 cells first, 7 bars first) and "pinwheel" frames (each bar protrudes
+    // at one end and abuts the next bar at the other: 8 cells first, 9 bars first)
+    Paths cellsP, bars;
+    for (int y = 1; y < h - 1; ++y) for (int x = 1; x < w - 1; ++x) if (g[y][x]) cellsP.push_back(R(x, y, x + 1, y + 1));
+    if (decomp <= 7) { bars = {R(-1, 0, w + 1, 1), R(-1, h - 1, w + 1, h), R(0, -1, 1, h + 1), R(w - 1, -1, w, h + 1)}; }
+    else { bars = {R(-1, 0, w - 1, 1), R(w - 1, -1, w, h - 1), R(1, h - 1, w + 1, h), R(0, 1, 1, h + 1)}; }
+    if (decomp % 2 == 0) { S = cellsP; S.insert(S.end(), bars.begin(), bars.end()); } else { S = bars; S.insert(S.end(), cellsP.begin(), cellsP.end()); }
+  }
+  else {  // 4 / 5: OVERLAPPING bars: every maximal row run AND every maximal column run (each cell covered twice), rows first (4) or columns first (5)
+    Paths rows = cells_shape(w, h, code, 1), cols = cells_shape(w, h, code, 2);
+    S = decomp == 4 ? rows : cols; const Paths& other = decomp == 4 ? cols : rows; S.insert(S.end(), other.begin(), other.end()); }
+  return S;
+}
+static void check_input(Ctx& cx, const Paths& S, const Paths& C, const Paths& O, bool verbose, int only_ct, int only_fr, const std::string& only_api);
+// variant: 0 Union/NonZero of the rectangles, 1 Xor/NonZero with the interior square as clip, 2 Difference/EvenOdd with the full square as clip
+static void cells_case(Ctx& cx, int w, int h, u64 code, int decomp, int variant, bool verbose) {
+  Paths S = cells_shape(w, h, code, decomp);
+  Case k; k.set("scope", "cells").set("w", w).set("h", h).set("code", (long long)code).set("decomp", decomp).set("variant", variant);
+  cx.key_prefix = k.s();
+  if (variant == 0) check_input(cx, S, Paths(), Paths(), verbose, 2, 1, "");
+  else if (variant == 1) check_input(cx, S, Paths{cell_rect(1, 1, w - 1, h - 1)}, Paths(), verbose, 4, 1, "");
+  else check_input(cx, S, Paths{cell_rect(0, 0, w, h)}, Paths(), verbose, 3, 0, "");
+  cx.key_prefix.clear();
+}
+static void cells_scope(Ctx& cx, const Args& a, Reporter& rep) {
+  int w = (int)a.opti("w", 6), h = (int)a.opti("h", 6); int nin = (w - 2) * (h - 2);
+  u64 total = (u64)1 << nin; bool done = true;
+  for (u64 code = 0; code < total; ++code) {
+    if (!rep.mine(code)) continue;
+    if ((code & 255) == 0 && rep.out_of_time()) { done = false; break; }
+    for (int decomp = 0; decomp < 10; ++decomp) {
+      cells_case(cx, w, h, code, decomp, 0, false);
+      if (decomp == 1) cells_case(cx, w, h, code, decomp, 1, false);
+      if (decomp == 0) cells_case(cx, w, h, code, decomp, 2, false);
+    }
+    rep.add("inputs", 4);
+    if (code % 4099 == 1) rep.sample("cells " + std::to_string(w) + "x" + std::to_string(h) + " interior code " + std::to_string(code) + ": " + pstr(cells_shape(w, h, code, 1)));
+  }
+  if (done) rep.bounds_completed.push_back("cells " + std::to_string(w) + "x" + std::to_string(h) + ": all 2^" + std::to_string(nin) + " interior subsets x 10 decompositions");
+}
+
 int main(int argc, char** argv) {
   Args a = parse_args(argc, argv);
   Reporter rep(a); install_crash_handler(rep);
@@ -136,6 +197,9 @@ int main(int argc, char** argv) {
   if (!a.replay.empty()) {
     Case c = Case::parse(a.replay);
     std::string api = c.get("api"); cx.treeD = api.rfind("treeD", 0) == 0;
+    if (c.get("scope") == "cells") { printf("shape: %s\n", pstr(cells_shape((int)c.geti("w"), (int)c.geti("h"), (u64)c.geti("code"), (int)c.geti("decomp"))).c_str());
+      cells_case(cx, (int)c.geti("w"), (int)c.geti("h"), (u64)c.geti("code"), (int)c.geti("decomp"), (int)c.geti("variant"), true);
+      printf("violations: %llu\n", (unsigned long long)rep.nviol); for (auto& x : rep.viols) printf("  %s %s: %s\n", x.prop.c_str(), x.tag.c_str(), x.detail.c_str()); return rep.nviol ? 1 : 0; }
     check_input(cx, c.getp("S"), c.getp("C"), c.getp("O"), true, (int)c.geti("ct"), (int)c.geti("fr", -1), api);
     printf("violations: %llu\n", (unsigned long long)rep.nviol);
     for (auto& x : rep.viols) printf("  %s %s: %s\n", x.prop.c_str(), x.tag.c_str(), x.detail.c_str());
@@ -187,6 +251,8 @@ int main(int argc, char** argv) {
     };
     rec(0);
     if (done) rep.bounds_completed.push_back("rect g=" + std::to_string(g) + " nsub=" + std::to_string(nsub));
+  } else if (scope == "cells") {
+    cells_scope(cx, a, rep);
   } else { fprintf(stderr, "unknown scope\n"); return 2; }
   rep.write();
   return 0;
